@@ -11,7 +11,7 @@
 //!          | (not F) | (some F) | (none) | (box F) | (arc F) | (reload F)
 //!            N: 0 = OFF, 1..5 = ERROR..TRACE; T: target or `*` (default); H: `-` or N; CS: `-` or (HEXALWAYS HEXNEVER)
 //! layer  ::= (rec N) | (glob LEAF) | (filt L F) | (pair OUTER INNER) | (lsome L) | (lnone) | (vec L*) | (lbox L)
-//!          | (lreload L) | (ident)
+//!          | (lreload L) | (lswap L0 L1) | (ident)
 //!            (pair A B) is `B.and_then(A)`: A is `Layered::subscriber` (asked first), B is `Layered::inner`.
 //!
 //! Pool: index i in 0..80, fs = i%2, kind = (i/2)%2 (0 event, 1 span), target = (i/4)%4 of [a, ab, a::b, b],
@@ -199,7 +199,10 @@ impl<T: Collect + for<'a> LookupSpan<'a> + Send + Sync + 'static> Col for T {}
 
 struct Rt {
     log: Arc<Mutex<Vec<u32>>>,
+    /// `lreload`: run once the stack is complete, before anything is observed
     after: RefCell<Vec<Box<dyn FnOnce()>>>,
+    /// `lswap`: run between the two observation phases (Handle::reload of a layer of a live stack)
+    swap: RefCell<Vec<Box<dyn FnOnce()>>>,
 }
 
 /// Builds the leaf filter described by `$s` and hands it (with its concrete type) to `$k`, which boxes it
@@ -350,6 +353,15 @@ fn build_layer<C: Col>(s: &Sx, rt: &Rt) -> BL<C> {
                 Box::new(r)
             }
         }
+        "lswap" => {
+            // reload::Subscriber holding V0 while the stack is built and observed (phase `pre`), then
+            // Handle::reload(V1) and a second observation of the same live stack
+            let v0 = build_layer::<C>(s.arg(1), rt);
+            let v1 = build_layer::<C>(s.arg(2), rt);
+            let (r, h) = reload::Subscriber::new(v0);
+            rt.swap.borrow_mut().push(Box::new(move || h.reload(v1).expect("reload")));
+            Box::new(r)
+        }
         "ident" => Box::new(Identity::new()),
         h => panic!("unknown layer form {}", h),
     }
@@ -448,6 +460,18 @@ fn probe_stack(id: &str, spans: &[(usize, u64, u64)], stack: Arc<dyn Collect + S
     for f in rt.after.borrow_mut().drain(..) {
         f();
     }
+    if rt.swap.borrow().is_empty() {
+        return format!("{{\"k\":\"s\",\"id\":{},{}}}", id, probe_core(spans, stack, rt));
+    }
+    let pre = probe_core(spans, stack.clone(), rt);
+    for f in rt.swap.borrow_mut().drain(..) {
+        f();
+    }
+    let post = probe_core(spans, stack, rt);
+    format!("{{\"k\":\"s\",\"id\":{},{},\"pre\":{{{}}}}}", id, post, pre)
+}
+
+fn probe_core(spans: &[(usize, u64, u64)], stack: Arc<dyn Collect + Send + Sync>, rt: &Rt) -> String {
     // pass 1: the static summaries, every callsite in pool order
     let ints: Vec<u8> = METAS.iter().map(|m| enc_i(stack.register_callsite(m))).collect();
     let hint = enc_h(stack.max_level_hint());
@@ -489,7 +513,7 @@ fn probe_stack(id: &str, spans: &[(usize, u64, u64)], stack: Arc<dyn Collect + S
         }
     });
     CTXN.store(0, Ordering::SeqCst);
-    format!("{{\"k\":\"s\",\"id\":{},\"hint\":{},\"int\":[{}],\"ctx\":[{}]}}", id, hint, join(&ints), ctxs.join(","))
+    format!("\"hint\":{},\"int\":[{}],\"ctx\":[{}]", hint, join(&ints), ctxs.join(","))
 }
 
 /// A transparent layer that lets us call `Filter::{enabled, on_*}` of a bare filter with a real `Context`.
@@ -566,7 +590,7 @@ fn run_line(line: &str) -> Option<String> {
     let sx = parse_sx(&rest[sp..]);
     assert!(sx.len() == 2, "expected <ctxspec> <expr>");
     let spans = ctx_spans(&sx[0]);
-    let rt = Rt { log: Arc::new(Mutex::new(Vec::new())), after: RefCell::new(Vec::new()) };
+    let rt = Rt { log: Arc::new(Mutex::new(Vec::new())), after: RefCell::new(Vec::new()), swap: RefCell::new(Vec::new()) };
     Some(match kind {
         "F" => probe_filter(id, &spans, build_filter::<Registry>(&sx[1], &rt)),
         "S" => {
